@@ -60,7 +60,7 @@ from common import Err, catch, zl, zlit
 
 PROPERTY = 'C20'
 PROPS_FILE = 'C20_Props.v'
-COQ_IMPORTS = ['C20_Model']
+COQ_IMPORTS = ['C20_Model', 'C20_Model_Ref']
 TOL = None
 ORACLE_PREMISES = [
     'call contract: a nested converter called with copy=True only allocates; called with copy=False it rewrites '
@@ -108,7 +108,7 @@ MODELLED = ('all from_dataset/from_sequence/extract_from_dataset/_from_dataset_*
             'smallest level, order of the caller\'s list)')
 STRATA = ['guard', 'valid', 'uid_uuid', 'uid_hd', 'uid_valid', 'uid_unique', 'conv', 'ctor',
           'ctor_layout', 'ctor_multi', 'ctor_opt', 'lut', 'pyr_ids', 'pm_native', 'sop_init', 'seg_plane',
-          'ctor_src', 'seg_measures', 'pr_area']
+          'ctor_src', 'seg_measures', 'pr_area', 'pr_voi', 'obj_copy']
 NOT_EXECUTED = ['SpecimenDescription.from_dataset at run time (substitute attribute table has no specimen module tree)',
                 'JPEG 2000 / JPEG-LS transfer syntaxes in the ctor kinds',
                 'non-native byte order for seg / sc pixel arrays and integer pm arrays is REFUSED by the library '
@@ -216,7 +216,8 @@ def _snap(x, ids=None):
             ids.add(id(x))
         items = tuple((int(e.tag), e.VR, _snap(e.value, ids)) for e in x)
         fm = getattr(x, 'file_meta', None)
-        return ('DS', id(x), type(x).__name__, items, _snap(fm, ids) if isinstance(fm, Dataset) else None)
+        return ('DS', id(x), type(x).__name__, items, _snap(fm, ids) if isinstance(fm, Dataset) else None,
+                _state(x))
     if isinstance(x, Sequence) or (isinstance(x, list) and x and all(isinstance(i, Dataset) for i in x)):
         if ids is not None:
             ids.add(id(x))
@@ -233,6 +234,61 @@ def _snap(x, ids=None):
     if isinstance(x, (bytes, bytearray)):
         return ('B', len(x), hashlib.sha1(bytes(x)).hexdigest())
     return ('V', type(x).__name__, repr(x))
+
+
+_BASE_STATE = None
+
+
+def _base_state():
+    """Names of the instance attributes pydicom itself keeps on a (File)Dataset (element dictionary,
+    reader bookkeeping, pixel caches): for these only the PRESENCE is part of a snapshot."""
+    global _BASE_STATE
+    if _BASE_STATE is None:
+        import pydicom
+        from pydicom.dataset import Dataset, FileDataset
+        names = set(vars(Dataset())) | set(vars(FileDataset('x', Dataset(), file_meta=pydicom.dataset.FileMetaDataset())))
+        _BASE_STATE = names | {'_pixel_array', '_pixel_id', '_private_blocks', 'seq_item_tell', 'file_tell'}
+    return _BASE_STATE
+
+
+def _state_val(v, depth=0):
+    import enum
+    import hashlib
+    import sqlite3
+    import numpy as np
+    if isinstance(v, sqlite3.Connection):       # the frame look-up tables of an image object
+        try:
+            return ('db', hashlib.sha1('\n'.join(v.iterdump()).encode()).hexdigest())
+        except Exception as ex:
+            return ('db', 'unusable: ' + type(ex).__name__)
+    if v is None or isinstance(v, (bool, int, float, str, bytes, enum.Enum)):
+        return repr(v)[:200]
+    if isinstance(v, np.ndarray):
+        return ('A', v.dtype.str, v.shape, hashlib.sha1(np.ascontiguousarray(v).tobytes()).hexdigest())
+    if isinstance(v, (list, tuple)) and depth < 3:
+        return (type(v).__name__,) + tuple(_state_val(i, depth + 1) for i in v)
+    if isinstance(v, dict) and depth < 3:
+        return ('dict',) + tuple(sorted((repr(k)[:80], _state_val(i, depth + 1)) for k, i in v.items()))
+    return ('obj', type(v).__name__)
+
+
+def _state(ds):
+    """What an object holds BESIDES its elements (instance attributes): the names, and for
+    the attributes the library itself adds to its classes (coordinate system, frame look-up
+    database, dimension index pointers ...) also the values."""
+    base = _base_state()
+    # (_pixel_rep: pydicom's hint for ambiguous VRs, handed down to every item that is linked into a
+    #  dataset with a PixelRepresentation - bookkeeping of pydicom's Dataset.__setitem__, not of the library)
+    return tuple(sorted((k, None if k in base else _state_val(v)) for k, v in vars(ds).items() if k != '_pixel_rep'))
+
+
+def _state_diff(a, b):
+    da, db = dict(a), dict(b)
+    gone, new = sorted(set(da) - set(db)), sorted(set(db) - set(da))
+    if gone or new:
+        return f'instance attributes removed {gone}, added {new}'
+    ch = [k for k in da if da[k] != db[k]]
+    return f'instance attribute(s) {sorted(ch)} changed' if ch else None
 
 
 def _first_diff(a, b, path='arg'):
@@ -253,7 +309,11 @@ def _first_diff(a, b, path='arg'):
                     f'{path}.{k:08X}: VR {ta[k][1]} -> {tb[k][1]}'
                 if d:
                     return d
-            return _first_diff(a[4], b[4], path + '.file_meta') or f'{path}: differs'
+            d = _first_diff(a[4], b[4], path + '.file_meta')
+            if d:
+                return d
+            sd = _state_diff(a[5], b[5])
+            return f'{path}: {sd} (the elements are unchanged)' if sd else f'{path}: differs'
         if a[0] == 'SQ':
             if a[1] != b[1] or a[2] != b[2]:
                 return f'{path}: sequence identity/class {a[2]} -> {b[2]}'
@@ -268,6 +328,9 @@ def _first_diff(a, b, path='arg'):
                 d = _first_diff(x, y, f'{path}[{i}]')
                 if d:
                     return d
+        if a[0] == 'L' and all(isinstance(x, tuple) and x[:1] == ('V',) for x in a[1] + b[1]):
+            show = lambda t: '[' + ', '.join(x[2].strip("'") for x in t[1]) + ']'
+            return f'{path}: {len(a[1])} values {show(a)[:60]} -> {len(b[1])} values {show(b)[:80]}'
     if isinstance(a, tuple) and isinstance(b, tuple) and a[:1] == ('A',) and b[:1] == ('A',):
         what = [n for n, x, y in zip(('dtype', 'shape', 'strides', 'writeable', 'bytes', 'owner buffer'), a[1:], b[1:])
                 if x != y]
@@ -824,6 +887,12 @@ def run_converter(c):
     rng = random.Random(c['seed'])
     arg = spec['arg'](rng)
     cp = c['copy']
+    hist = c.get('hist', 'plain')
+    if hist != 'plain':
+        # HISTORY of the argument: it already is an object of the library's class, obtained by an earlier
+        # conversion (in place / with copying) of the plain dataset - the hooks the class installs for
+        # copying (__deepcopy__, __getstate__ ...) now run on the CALLER'S object
+        arg = spec['call'](arg, hist == 'copy')
     ids0 = set()
     before = _snap(arg, ids0)
     cls0 = type(arg)
@@ -835,7 +904,10 @@ def run_converter(c):
     if cp or mode == 'nocopy':
         d = _first_diff(before, after)
         if d:
-            out['violation'] = f"{c['target']}(copy={cp if mode != 'nocopy' else 'n/a'}) modified its argument: {d}"
+            was = '' if hist == 'plain' else f' (a {cls0.__name__} obtained by an earlier conversion' + \
+                ('' if mode == 'nocopy' else ' with copying' if hist == 'copy' else ' in place') + ')'
+            out['violation'] = (f"{c['target']}(copy={cp if mode != 'nocopy' else 'n/a'}) modified its "
+                                f"argument{was}: {d}")
             return out
         if res is arg:
             out['violation'] = f"{c['target']}(copy=True) returned the argument itself"
@@ -1967,6 +2039,316 @@ def run_pr_area(c):
             [next(i for i, o in enumerate(orig) if o is r) for r in refs] if len(refs) == len(orig) else [-1]]
 
 
+# ---- VOI LUT transformations restricted to frames / segments of the referenced images ----------
+def _voi_images(c):
+    """Referenced images of a pr_voi case: 'ct' single-frame CT images of one series, 'mf' a multi-frame
+    CT image of n frames, 'tiled' a tiled slide image of n frames, 'seg' a segmentation of n segments
+    (one frame each).  The LAST `extra` of them are NOT handed to the presentation state."""
+    import numpy as np
+    import synth
+    ids = (synth.uid(), synth.uid(), synth.uid())
+    out = []
+    for k, im in enumerate(c['images']):
+        if im['type'] == 'ct':
+            out.append(synth.ct_frame((0.0, 0.0, 2.5 * k), 4, 4, series_uid=ids[0], study_uid=ids[1], for_uid=ids[2],
+                                      instance_number=k + 1))
+        elif im['type'] == 'mf':
+            out.append(synth.ct_multiframe([2.5 * j for j in range(im['n'])], 4, 4))
+        elif im['type'] == 'tiled':
+            out.append(synth.sm_tiled(4, 4 * im['n'], 4, 4, samples=1))
+        else:
+            n = im['n']
+            arr = np.zeros((1, 4, 4), np.uint8)
+            for j in range(n):
+                arr[0, j // 4, j % 4] = j + 1
+            out.append(synth.make_seg(synth.ct_series(1, 4, 4), arr, 'BINARY', list(range(1, n + 1))))
+    return out
+
+
+def _voi_numbers(item, kwd):
+    from pydicom.multival import MultiValue
+    if kwd not in item:
+        return None
+    v = item[kwd].value
+    return [int(x) for x in v] if isinstance(v, (MultiValue, list, tuple)) else [int(v)]
+
+
+def _voi_cells(vois, kwd='ReferencedFrameNumber'):
+    return [[_voi_numbers(it, kwd) for it in v.get('ReferencedImageSequence', [])] for v in vois]
+
+
+def _voi_build(c, images):
+    """The caller's SoftcopyVOILUTTransformation items: per item a list of (image, frame numbers or None[,
+    segment numbers]) references; one number is stored as a scalar, several as a multi-valued element."""
+    import highdicom as hd
+    vois = []
+    for k, refs in enumerate(c['items']):
+        kw = {}
+        if refs is not None:
+            seq = None
+            for r in refs:
+                num = lambda v: None if v is None else (v[0] if len(v) == 1 else list(v))
+                one = hd.ReferencedImageSequence([images[r[0]]], referenced_frame_number=num(r[1]),
+                                                 referenced_segment_number=num(r[2]) if len(r) > 2 else None)
+                if seq is None:
+                    seq = one
+                else:
+                    seq.append(one[0])
+            kw['referenced_images'] = seq
+        if c.get('lut') and k % 2:
+            import numpy as np
+            kw['voi_luts'] = [hd.VOILUT(0, np.arange(4 + k, dtype=np.uint16), 'x')]
+        else:
+            kw.update(window_center=40.0 + k, window_width=400.0)
+        vois.append(hd.pr.SoftcopyVOILUTTransformation(**kw))
+    return vois
+
+
+def run_pr_voi(c):
+    """Softcopy VOI LUT module of a presentation state built from SEVERAL transformations that refer to
+    frames (segments) of the referenced images: [the caller's frame numbers afterwards, the frame numbers
+    the object holds] per transformation and reference item, or the refusal."""
+    import highdicom as hd
+    from pydicom.dataset import Dataset
+    from highdicom.pr.content import _add_softcopy_voi_lut_attributes
+    images = _voi_images(c)
+    extra = c.get('extra', 0)
+    refs = images[:len(images) - extra]
+    vois = _voi_build(c, images)
+    if c.get('container') == 'tuple':
+        refs, vois = tuple(refs), tuple(vois)
+    owned = [refs, vois]
+    before = [_snap(a) for a in owned]
+    cells0 = _voi_cells(vois)
+    segs0 = _voi_cells(vois, 'ReferencedSegmentNumber')
+    entry = c['entry']
+    what = (f"{entry} presentation state, {len(vois)} VOI LUT transformation(s) referring to frames {cells0}"
+            + (f" / segments {segs0}" if any(x is not None for row in segs0 for x in row) else '')
+            + f" of {[(im['type'], im.get('n', 1)) for im in c['images']]}")
+    kw = dict(series_instance_uid=hd.UID(), series_number=1, sop_instance_uid=hd.UID(), instance_number=1,
+              manufacturer='m', manufacturer_model_name='mm', software_versions='1', device_serial_number='sn',
+              content_label='LABEL', voi_lut_transformations=vois)
+    if len(refs) > 1 and any(im['type'] != 'ct' for im in c['images']):
+        kw['modality_lut_transformation'] = hd.ModalityLUTTransformation(rescale_intercept=0.0, rescale_slope=1.0, rescale_type='HU')
+    try:
+        if entry == 'direct':
+            obj = Dataset()
+            _add_softcopy_voi_lut_attributes(obj, refs, vois)
+        elif entry == 'pseudo':
+            import numpy as np
+            lut = np.stack([np.arange(256), np.arange(256)[::-1], np.full(256, 7)], axis=1).astype(np.uint16) * 256
+            obj = hd.pr.PseudoColorSoftcopyPresentationState(
+                referenced_images=refs, palette_color_lut_transformation=(
+                    hd.PaletteColorLUTTransformation.from_combined_lut(lut, palette_color_lut_uid=hd.UID())), **kw)
+        else:
+            obj = hd.pr.GrayscaleSoftcopyPresentationState(referenced_images=refs, **kw)
+    except REJECTIONS as ex:
+        if _call_mistake(ex):
+            raise
+        return _unchanged(before, owned, what + f' (refused: {type(ex).__name__})') or Err(type(ex).__name__)
+    v = _unchanged(before, owned, what)
+    if v:
+        return v
+    stored = list(obj.SoftcopyVOILUTSequence)
+    if _voi_cells(stored, 'ReferencedSegmentNumber') != segs0:
+        return _viol(f'{what}: the object holds the segment numbers '
+                     f"{_voi_cells(stored, 'ReferencedSegmentNumber')}")
+    if entry != 'direct':
+        viol, back = _check_object(what, obj, {})
+        if viol:
+            return _viol(viol)
+        if _voi_cells(back.SoftcopyVOILUTSequence) != _voi_cells(stored):
+            return _viol(f'{what}: frame numbers read back differ from those of the object')
+    return [_voi_cells(vois), _voi_cells(stored)]
+
+
+def _voi_expected(c):
+    """Independent of the model: may these transformations be combined (every (image, frame) gets at
+    most one window, every reference is to an image of the presentation state), and what the caller's
+    items and the object must hold.  None: no expectation (segment references)."""
+    if any(im['type'] == 'seg' for im in c['images']):
+        return None
+    items = c['items']
+    if not items or (len(items) > 1 and any(r is None for r in items)):
+        return 'refuse'
+    known = len(c['images']) - c.get('extra', 0)
+    seen = set()
+    for refs in items:
+        for r in refs or []:
+            if r[0] >= known:
+                return 'refuse'
+            im = c['images'][r[0]]
+            for f in (r[1] if r[1] is not None else range(1, (im['n'] if im['type'] != 'ct' else 1) + 1)):
+                if (r[0], f) in seen:
+                    return 'refuse'
+                seen.add((r[0], f))
+    cells = [[(None if r[1] is None else list(r[1])) for r in (refs or [])] for refs in items]
+    return [cells, cells]
+
+
+# ---- conversions and copies of objects that already are objects of the library ---------------
+OBJ_CLASSES = {       # class -> (module path, is an _Image subclass: installs __getstate__ / __setstate__)
+    'Image': ('highdicom.Image', True), 'Segmentation': ('highdicom.seg.Segmentation', True),
+    'Comprehensive3DSR': ('highdicom.sr.Comprehensive3DSR', False),
+    'MicroscopyBulkSimpleAnnotations': ('highdicom.ann.MicroscopyBulkSimpleAnnotations', False),
+    'CodedConcept': ('highdicom.sr.CodedConcept', False), 'ContentItem': (None, False),
+}
+OBJ_HISTORIES = ['plain', 'conv_copy', 'conv_inplace', 'read', 'constructed']
+OBJ_OPS = ['from_copy', 'from_default', 'from_nocopy', 'deepcopy', 'pickle']
+
+
+def _obj_bytes(ds):
+    b = io.BytesIO()
+    ds.save_as(b)
+    return b.getvalue()
+
+
+def _obj_subject(c, rng):
+    """(object with the HISTORY asked for, its class).  plain: a pydicom dataset as read from a file;
+    conv_copy / conv_inplace: result of an earlier from_dataset; read: imread / segread / srread /
+    annread of a file (content classes: converted in place); constructed: straight from the constructor."""
+    import pydicom
+    import highdicom as hd
+    import synth
+    name, hist = c['cls'], c['hist']
+    if name == 'Image':
+        form = c.get('form', 'ct')
+        raw = synth.ct_frame((0.0, 0.0, 1.0), rng.randint(2, 5), rng.randint(2, 5)) if form == 'ct' else \
+            synth.ct_multiframe([0.0, 2.5, 5.0][:rng.randint(2, 3)], 3, 4) if form == 'mf' else \
+            synth.sm_tiled(8, 8, 4, 4, samples=rng.choice([1, 3]))
+        cls, reader = hd.Image, hd.imread
+    elif name == 'Segmentation':
+        raw = _make_seg(rng, seg_type=c.get('form'))
+        cls, reader = hd.seg.Segmentation, hd.seg.segread
+    elif name == 'Comprehensive3DSR':
+        raw = _sr_doc(rng, name)[0]
+        cls, reader = hd.sr.Comprehensive3DSR, hd.sr.srread
+    elif name == 'MicroscopyBulkSimpleAnnotations':
+        raw = _make_ann(rng)
+        cls, reader = hd.ann.MicroscopyBulkSimpleAnnotations, hd.ann.annread
+    elif name == 'CodedConcept':
+        raw, cls, reader = _coded(rng), hd.sr.CodedConcept, None
+    else:
+        raw = _item(rng, rng.choice(VALUE_TYPES))
+        cls, reader = type(raw), None
+    if hist == 'constructed':
+        if type(raw) is not cls:
+            raise ValueError('no constructor for ' + name)
+        return raw, cls
+    if reader is None:
+        plain = _plain(raw)
+    else:
+        data = _obj_bytes(raw)
+        if hist == 'read':
+            return reader(io.BytesIO(data)), cls
+        plain = pydicom.dcmread(io.BytesIO(data))
+    if hist == 'plain':
+        return plain, cls
+    return cls.from_dataset(plain, copy=(hist == 'conv_copy')), cls
+
+
+def _obj_probe(obj):
+    """What the object DELIVERS through its public interface (independent of its attributes)."""
+    import highdicom as hd
+    out = [type(obj).__name__]
+    if isinstance(obj, hd.image._Image):
+        nf = int(obj.number_of_frames)
+        out += [nf, obj.get_stored_frame(1).tobytes(), obj.get_stored_frame(nf).tobytes()]
+    if isinstance(obj, hd.seg.Segmentation):
+        uids = sorted(map(tuple, obj.get_source_image_uids()))
+        out += [uids, list(obj.segment_numbers)]
+        try:
+            out.append(obj.get_pixels_by_source_instance(
+                source_sop_instance_uids=[uids[0][2]], ignore_spatial_locations=True,
+                assert_missing_frames_are_empty=True).tobytes())
+        except (ValueError, KeyError, RuntimeError, IndexError) as ex:       # (frames without a source instance ...)
+            out.append('n/a: ' + type(ex).__name__)
+    if isinstance(obj, hd.sr.Comprehensive3DSR):
+        out.append([str(it.ConceptNameCodeSequence[0].CodeValue) for it in obj.content])
+    if isinstance(obj, hd.ann.MicroscopyBulkSimpleAnnotations):
+        out.append([g.number for g in obj.get_annotation_groups()])
+    if isinstance(obj, hd.sr.CodedConcept):
+        out.append((obj.value, obj.scheme_designator, obj.meaning))
+    return out
+
+
+def run_obj_copy(c):
+    """A conversion with / without copying, a deepcopy or a pickle round trip applied to an object
+    with a HISTORY: [the result is the argument itself, the argument was changed]."""
+    import pickle
+    import random
+    rng = random.Random(c['seed'])
+    obj, cls = _obj_subject(c, rng)
+    op = c['op']
+    what = (f"{cls.__name__}.from_dataset(copy={'True' if op == 'from_copy' else 'default' if op == 'from_default' else 'False'})"
+            if op.startswith('from') else 'copy.deepcopy' if op == 'deepcopy' else 'pickle round trip') + \
+        f" of a {type(obj).__name__} ({c['hist']}{', ' + str(c.get('form')) if c.get('form') else ''})"
+    steps = {'from_copy': lambda: cls.from_dataset(obj, copy=True), 'from_default': lambda: cls.from_dataset(obj),
+             'from_nocopy': lambda: cls.from_dataset(obj, copy=False), 'deepcopy': lambda: _copy.deepcopy(obj),
+             'pickle': lambda: pickle.loads(pickle.dumps(obj))}
+    is_obj = isinstance(obj, cls)
+    ids0 = set()
+    before = _snap(obj, ids0)
+    elements0 = _plain(obj)
+    probe0 = _obj_probe(obj) if is_obj else None
+    same = None
+    for round_ in (1, 2):           # the original must survive being copied - and being copied AGAIN
+        try:
+            res = steps[op]()
+        except Exception as ex:
+            d = _first_diff(before, _snap(obj))
+            if d:
+                return _viol(f'{what} raised {type(ex).__name__} AND modified the original: {d}')
+            if round_ == 2:
+                return _viol(f'{what} worked once, the second time it raises {type(ex).__name__}: {ex}')
+            if op in ('deepcopy', 'pickle') and not (is_obj and OBJ_CLASSES[c['cls']][1]):
+                return Err('not copyable')       # pydicom's own business (e.g. an open file, a local function)
+            return _viol(f'{what} raised {type(ex).__name__}: {ex}')
+        if op == 'from_nocopy':
+            if res is not obj:
+                return _viol(f'{what} returned a different object')
+            if not is_obj:
+                return [True, False]             # converted in place, as asked for
+            d = _cmp_ds(elements0, obj)          # an object of the class converted in place AGAIN: nothing to do
+            if d:
+                return _viol(f'{what} changed the value of an element: {d}')
+        else:
+            if res is obj:
+                return _viol(f'{what} returned the argument itself')
+            shared = _node_ids(res) & ids0
+            if shared:
+                return _viol(f'{what}: the result shares {len(shared)} nested dataset/sequence object(s) with the original')
+            d = _cmp_ds(obj, res)
+            if d:
+                return _viol(f'{what}: the copy differs from the original: {d}')
+        d = _first_diff(before, _snap(obj)) if op != 'from_nocopy' else None
+        if d:
+            return _viol(f'{what} modified the original: {d}')
+        if is_obj:
+            try:
+                if _obj_probe(obj) != probe0:
+                    return _viol(f'{what}: the original delivers other frames / look-ups than before')
+            except Exception as ex:
+                return _viol(f'{what}: the original is no longer usable afterwards: {type(ex).__name__}: {ex}')
+            try:
+                if _obj_probe(res) != probe0:
+                    return _viol(f'{what}: the result delivers other frames / look-ups than the original')
+            except Exception as ex:
+                return _viol(f'{what}: the result is not usable: {type(ex).__name__}: {ex}')
+        same = res is obj
+    if 'SOPInstanceUID' in obj and is_obj:      # ... and still is a file that reads back element for element
+        import pydicom
+        b = io.BytesIO()
+        try:
+            obj.save_as(b, enforce_file_format=True)
+        except Exception as ex:
+            return _viol(f'{what}: the original cannot be written afterwards: {type(ex).__name__}: {ex}')
+        d = _cmp_ds(elements0, pydicom.dcmread(io.BytesIO(b.getvalue())))
+        if d:
+            return _viol(f'{what}: the original written afterwards differs from what it was: {d}')
+    return [bool(same), False]
+
+
 TS_CODES = {0: [None], 1: ['1.2.840.10008.1.2'], 2: ['1.2.840.10008.1.2.1'], 3: ['1.2.840.10008.1.2.2'],
             4: ['1.2.840.10008.1.2.1.99'],
             5: ['1.2.840.10008.1.2.5', '1.2.840.10008.1.2.4.50', '1.2.840.10008.1.2.4.80', '1.2.840.10008.1.2.4.90'],
@@ -2124,10 +2506,13 @@ def gen_cases(rng, tier):
     cases.append({'kind': 'uid_valid', 's': [ord(ch) for ch in '1.' + '2' * 63]})
     for _ in range(2 * n):
         cases.append({'kind': 'uid_unique', 'count': 300})
-    for t in sorted(CONVERTERS):
+    for j, t in enumerate(sorted(CONVERTERS)):
         for cp in (True, False):
             for _ in range(2 * n):
                 cases.append({'kind': 'conv', 'target': t, 'copy': cp, 'seed': rng.getrandbits(32)})
+            # the argument already is an object of the class (converted earlier, in place or with copying)
+            for hist in (('inplace', 'copy') if n > 1 else (('inplace', 'copy')[(j + cp) % 2],)):
+                cases.append({'kind': 'conv', 'target': t, 'copy': cp, 'seed': rng.getrandbits(32), 'hist': hist})
     for t in sorted(CONSTRUCTORS):
         reps = 12 if t in ('coded_concept', 'content_item', 'segment_description') else 4
         for i in range(reps * n):
@@ -2143,6 +2528,8 @@ def gen_cases(rng, tier):
     cases += _gen_measures_cases(rng, n)
     cases += _gen_area_cases(rng, n)
     cases += _gen_src_cases(rng, n)
+    cases += _gen_voi_cases(rng, n)
+    cases += _gen_obj_copy_cases(rng, n)
     return cases
 
 
@@ -2212,6 +2599,105 @@ def _gen_area_cases(rng, n):
             sizes = [rng.choice(pool) for _ in range(rng.choice([1, 2, 2, 3, 4, 5]))]
             cases.append({'kind': 'pr_area', 'tiled': tiled, 'sizes': [list(x) for x in sizes],
                           'container': 'tuple' if rng.random() < 0.15 else 'list'})
+    return cases
+
+
+def _gen_voi_cases(rng, n):
+    """Presentation states x NUMBER of VOI LUT transformations x what each refers to (nothing, whole
+    images, one frame = a scalar element, several frames = a multi-valued element, segments) x whether
+    several of them refer to the SAME image x order of the forms x overlap (kind pr_voi)."""
+    cases = []
+    mf6 = [{'type': 'mf', 'n': 6}]
+    two = [{'type': 'mf', 'n': 4}, {'type': 'mf', 'n': 3}]
+    cts = [{'type': 'ct'}] * 3
+    seg = [{'type': 'seg', 'n': 4}]
+    fixed = [
+        (mf6, [[[0, [1, 2]]], [[0, [3, 4]]]]),                       # several frames each, same image
+        (mf6, [[[0, [5, 1]]], [[0, [2, 6]]], [[0, [3, 4]]]]),
+        (mf6, [[[0, [1]]], [[0, [2]]]]),                             # one frame each
+        (mf6, [[[0, [6]]], [[0, [1, 2]]]]),                          # one frame first, several later
+        (mf6, [[[0, [1, 2]]], [[0, [3]]]]),                          # several first, one later
+        (mf6, [[[0, [1, 2, 3]]]]), (mf6, [None]), (mf6, [None, None]), (mf6, []), (mf6, [[[0, None]]]),
+        (mf6, [[[0, None]], [[0, [2]]]]), (mf6, [[[0, [1, 2]]], [[0, [2, 3]]]]),
+        (mf6, [[[0, [1, 2]]], None]), (mf6, [[[0, [2, 3]]], [[0, [4]]], [[0, [5, 6, 1]]]]),
+        ([{'type': 'tiled', 'n': 6}], [[[0, [1, 2]]], [[0, [3, 4, 5]]]]),
+        (two, [[[0, [1, 2]]], [[1, [1, 2]]], [[0, [3]]]]),
+        (two, [[[0, [1, 2]], [1, [1]]], [[0, [3, 4]], [1, [2, 3]]]]),     # per-item frame numbers
+        (two, [[[0, [1, 2]], [1, [1]]], [[0, [3, 4]], [1, [1, 3]]]]),
+        (cts, [[[0, None]], [[1, None]], [[2, None]]]), (cts, [[[0, None], [1, None]], [[2, None]]]),
+        (cts, [[[0, None]], [[0, None], [1, None]]]), (cts, [[[0, None], [1, None], [2, None]]]),
+        (seg, [[[0, None, [1, 2]]], [[0, None, [3]]]]), (seg, [[[0, None, [1, 2]]], [[0, None, [3, 4]]]]),
+        (seg, [[[0, None, [1, 2]]], [[0, None, [2, 3]]]]), (seg, [[[0, [1, 2], [1, 2]]], [[0, [3], [3]]]]),
+    ]
+    for i, (images, items) in enumerate(fixed):
+        for entry in (('gsps', 'pseudo', 'direct') if (n > 1 or i < 2) else (('gsps', 'pseudo', 'direct')[i % 3],)):
+            cases.append({'kind': 'pr_voi', 'entry': entry, 'images': images, 'items': items, 'extra': 0,
+                          'container': 'list', 'lut': False})
+    # a reference to an image that is not among the referenced images of the presentation state
+    cases.append({'kind': 'pr_voi', 'entry': 'gsps', 'images': two, 'items': [[[0, [1, 2]]], [[1, [1, 2]]]], 'extra': 1,
+                  'container': 'list', 'lut': False})
+    for _ in range(14 * n):
+        kind = rng.choice(['mf', 'mf', 'tiled', 'two', 'ct'])
+        if kind == 'ct':
+            k = rng.randint(2, 4)
+            images = [{'type': 'ct'}] * k
+            order = list(range(k))
+            rng.shuffle(order)
+            cut = sorted(rng.sample(range(1, k), rng.randint(1, k - 1)))
+            items = [[[j, None] for j in order[a:b]] for a, b in zip([0] + cut, cut + [k])]
+            if rng.random() < 0.2:
+                items[-1].append([order[0], None])
+        else:
+            images = [{'type': 'mf' if kind != 'tiled' else 'tiled', 'n': rng.randint(2, 8)}]
+            if kind == 'two':
+                images.append({'type': 'mf', 'n': rng.randint(2, 5)})
+            pool = [(j, f) for j, im in enumerate(images) for f in range(1, im['n'] + 1)]
+            rng.shuffle(pool)
+            T = rng.randint(1, 4)
+            items = []
+            for t in range(T):
+                refs = []
+                for j in range(len(images)):
+                    mine = [f for (jj, f) in pool if jj == j]
+                    take = mine[:rng.choice([1, 2, 2, 3])]
+                    pool = [x for x in pool if not (x[0] == j and x[1] in take)]
+                    if take and (rng.random() < 0.8 or not refs):
+                        refs.append([j, take])
+                if not refs:
+                    refs = [[0, [rng.randint(1, images[0]['n'])]]]          # (frames used up: an overlap)
+                items.append(refs)
+            if rng.random() < 0.2 and T > 1:                                 # overlap on purpose
+                a, b = rng.sample(range(T), 2)
+                items[b][0] = [items[a][0][0], items[b][0][1][:-1] + [items[a][0][1][-1]]] \
+                    if items[b][0][0] == items[a][0][0] else items[b][0]
+            if rng.random() < 0.15:
+                items[rng.randrange(T)] = [[0, None]]                       # one of them for the whole image
+        cases.append({'kind': 'pr_voi', 'entry': rng.choice(['gsps', 'gsps', 'pseudo', 'direct']), 'images': images,
+                      'items': items, 'extra': 0, 'container': rng.choice(['list', 'list', 'tuple']),
+                      'lut': rng.random() < 0.3})
+    return cases
+
+
+def _gen_obj_copy_cases(rng, n):
+    """Objects of the library with a HISTORY (plain dataset, converted earlier with / without copying,
+    read by imread / segread / srread / annread, straight from the constructor) x what is applied to them
+    (from_dataset with copy True / default / False, copy.deepcopy, pickle) (kind obj_copy)."""
+    cases = []
+    forms = {'Image': ['ct', 'mf', 'tiled'], 'Segmentation': ['BINARY', 'FRACTIONAL', 'LABELMAP']}
+    for cls in OBJ_CLASSES:
+        for hist in OBJ_HISTORIES:
+            if hist == 'constructed' and cls == 'Image':
+                continue
+            if hist == 'read' and cls in ('CodedConcept', 'ContentItem'):
+                continue
+            image = OBJ_CLASSES[cls][1]
+            ops = OBJ_OPS if (image or n > 1) else ['from_copy', rng.choice(OBJ_OPS[1:])]
+            if hist == 'plain' and n == 1:
+                ops = ['from_copy', 'from_nocopy', rng.choice(['deepcopy', 'pickle', 'from_default'])] if image else \
+                    [rng.choice(['from_copy', 'from_nocopy'])]
+            for op in ops:
+                cases.append({'kind': 'obj_copy', 'cls': cls, 'hist': hist, 'op': op, 'seed': rng.getrandbits(32),
+                              'form': rng.choice(forms[cls]) if cls in forms else None})
     return cases
 
 
@@ -2637,6 +3123,10 @@ def run_impl(c):
         return run_seg_measures(c)
     if k == 'pr_area':
         return run_pr_area(c)
+    if k == 'pr_voi':
+        return run_pr_voi(c)
+    if k == 'obj_copy':
+        return run_obj_copy(c)
     if k == 'lut':
         return run_lut(c)
     if k == 'pyr_ids':
@@ -2715,6 +3205,24 @@ def coq_term(c):
     if k == 'pr_area':
         sizes = '[' + '; '.join(f'({r}, {cc})' for r, cc in c['sizes']) + ']'
         return f"(run_displayed_area {'true' if c['tiled'] else 'false'} {sizes})"
+    if k == 'pr_voi':
+        if any(im['type'] == 'seg' for im in c['images']):
+            return None          # references to segments: outside the model (oracle only)
+        known = c['images'][:len(c['images']) - c.get('extra', 0)]
+        imgs = '[' + '; '.join(f"({'false' if im['type'] == 'ct' else 'true'}, {1 if im['type'] == 'ct' else im['n']})"
+                               for im in known) + ']'
+
+        def item(r):
+            return f"({r[0]}%nat, {'None' if r[1] is None else '(Some ' + zl(r[1]) + ')'})"
+        ts = '[' + '; '.join('None' if refs is None else '(Some [' + '; '.join(item(r) for r in refs) + '])'
+                             for refs in c['items']) + ']'
+        return f"(run_voi_refs {imgs} {ts})"
+    if k == 'obj_copy':
+        image_object = OBJ_CLASSES[c['cls']][1] and c['hist'] != 'plain'
+        if c['op'] in ('deepcopy', 'pickle') and not image_object:
+            return None          # pydicom's own copying of a dataset: oracle only
+        return (f"(run_obj_copy {'true' if image_object else 'false'} "
+                f"{ {'from_copy': 0, 'from_default': 0, 'from_nocopy': 1, 'deepcopy': 2, 'pickle': 3}[c['op']] })")
     if k == 'seg_plane':
         b = lambda x: 'true' if x else 'false'
         return (f"(run_seg_plane {b(c['fl'])} {b(c['nd3'])} {b(c['described'] == [1])} "
@@ -2848,6 +3356,28 @@ def oracle(c, out):
             return (f'displayed area {corner} of image #{sel}; expected the '
                     f"{'first smallest level' if c['tiled'] else 'first image'} #{want} of sizes {c['sizes']}")
         return None
+    if k == 'pr_voi':
+        want = _voi_expected(c)
+        if isinstance(out, Err):
+            return None if want in (None, 'refuse') else \
+                f"VOI LUT transformations over disjoint frames {c['items']} of {c['images']} refused: {out.kind}"
+        if want == 'refuse':
+            return (f"VOI LUT transformations {c['items']} were accepted although they overlap / refer to an image "
+                    f"outside the presentation state / lack references")
+        if out[0] != out[1]:
+            return f'the object holds the frame numbers {out[1]}, the transformations of the caller {out[0]}'
+        if want is not None and out != want:
+            return (f'after construction the VOI LUT transformations of the caller refer to frames {out[0]}, '
+                    f'they were built for {want[0]}')
+        return None
+    if k == 'obj_copy':
+        if isinstance(out, Err):
+            return None if out.kind == 'not copyable' else f'valid object refused: {out.kind}'
+        if out[1]:
+            return 'the original was changed'
+        if out[0] != (c['op'] == 'from_nocopy'):
+            return 'conversion without copying must return the argument, every other operation a new object'
+        return None
     if k == 'seg_plane':
         if isinstance(out, Err):
             return str(out)
@@ -2877,7 +3407,7 @@ def nontrivial(c, out):
         return bool(out) or len(c['s']) > 1
     if k in ('conv',) + CTOR_KINDS:
         return isinstance(out, dict) and out.get('ran', False)
-    if k in ('lut', 'pyr_ids', 'pm_native', 'sop_init', 'seg_measures', 'pr_area'):
+    if k in ('lut', 'pyr_ids', 'pm_native', 'sop_init', 'seg_measures', 'pr_area', 'pr_voi', 'obj_copy'):
         return not isinstance(out, Err)
     if k == 'seg_plane':
         return any(v for px in c['plane'] for v in px)
